@@ -113,6 +113,11 @@ def check_source(src):
         tree = ast.parse(src)
     except SyntaxError as e:
         return ['<generated source does not parse: %s>' % e.msg]
+    # the generated module must consist of exactly one function definition (comments are fine)
+    tops = [n for n in tree.body]
+    if len(tops) != 1 or not isinstance(tops[0], ast.FunctionDef) or not tops[0].name.startswith('_gen_hsfilter_'):
+        bad.append('construct:module-level-' + ','.join(type(n).__name__ for n in tops if not (
+            isinstance(n, ast.FunctionDef) and n.name.startswith('_gen_hsfilter_')))[:60])
     for node in ast.walk(tree):
         if isinstance(node, ast.Call):
             f = node.func
@@ -242,7 +247,7 @@ def evaluate(ctx, mon, hszinc, gf, pp, g, text, pos, payload, grid_snap):
     for e in events:
         ctx.count('audit event ' + e[0].split('.')[0])
         if e[0] == 'compile':
-            if not (isinstance(e[1], str) and e[1].startswith('def _gen_hsfilter_')) or len(compiles) > 1:
+            if not (isinstance(e[1], str) and 'def _gen_hsfilter_' in e[1] and e[2] in ('<string>', None)) or len(compiles) > 1:
                 viol('effect:compile', 'compile() of something that is not the generated filter function: %r' % ((e[1] or '')[:120],))
         elif e[0] == 'exec':
             if e[1] not in ('<module>',) or len([x for x in events if x[0] == 'exec']) > 1:
@@ -251,7 +256,7 @@ def evaluate(ctx, mon, hszinc, gf, pp, g, text, pos, payload, grid_snap):
             viol('effect:' + e[0], 'audit event %r during filter evaluation' % (e,))
     # (2) generated source
     for e in compiles:
-        if isinstance(e[1], str) and e[1].startswith('def _gen_hsfilter_'):
+        if isinstance(e[1], str) and 'def _gen_hsfilter_' in e[1]:
             ctx.count('generated sources AST-checked')
             bad = check_source(e[1])
             if bad:
